@@ -229,6 +229,8 @@ class WorkflowRecovery:
         Returns:
             RecoveryResult describing what happened
         """
+        from stabilize.models.stage import SyntheticStageOwner
+        from stabilize.models.status import CONTINUABLE_STATUSES
         from stabilize.queue.messages import (
             RunTask,
             StartStage,
@@ -341,6 +343,22 @@ class WorkflowRecovery:
                             )
                         )
                 elif not_started_tasks and stage.start_time is not None:
+                    # The parent's tasks start only after its synthetic
+                    # before-stages finished (ContinueParentStage does that).
+                    # Starting them from here while a before-stage is still
+                    # pending runs the task too early and wedges the parent:
+                    # its CompleteStage is consumed as stale while the
+                    # before-stage runs. The before-stages are recovered by
+                    # their own iteration of this loop.
+                    pending_before = [
+                        s
+                        for s in full_workflow.stages
+                        if s.parent_stage_id == stage.id
+                        and s.synthetic_stage_owner == SyntheticStageOwner.STAGE_BEFORE
+                        and s.status not in CONTINUABLE_STATUSES
+                    ]
+                    if pending_before:
+                        continue
                     first_task = not_started_tasks[0]
                     # Mirror the running-task guard: skip if a message for this
                     # task is already queued, so a recovery sweep overlapping
